@@ -18,7 +18,7 @@ MANIFEST = {
                      "functions of Mutex/Signal/Monitor, deadline arithmetic incl. C's 64-bit semantics, constants and shapes regenerated from the "
                      "current sources on every run and proved equal to what the model does) + controlled-scheduler correspondence "
                      "(real sources over a simulated POSIX layer, identical schedules replayed on the model)",
-        "text": "64 theorems (Props.lean 41, PropsLock.lean 3, PropsCfg.lean 12, PropsDeadline.lean 8), none partial.  SAFETY over every reachable state of the Lean transition systems (a schedule is the universally quantified list "
+        "text": "65 theorems (Props.lean 42, PropsLock.lean 3, PropsCfg.lean 12, PropsDeadline.lean 8), none partial.  SAFETY over every reachable state of the Lean transition systems (a schedule is the universally quantified list "
                 "of (thread, action) choices; spurious wake-ups, EINTR, ENOSYS, time-outs and clock ticks at any moment; unboundedly many "
                 "threads): mutex_exclusive_reentrant, mutex_recursion_depth_counted, trylock_nonblocking_succeeds_when_free, sem_conservation, "
                 "sem_trywait_never_blocks, sem_wait_step_accounting (a call consumes at most one unit and exactly when it returns true; false = nothing consumed and for the timed wait not before its deadline; "
@@ -33,6 +33,7 @@ MANIFEST = {
                 "sem_waiter_eventually_returns, sem_waiter_returns_if_enough_signals, sem_closed_system_all_waiters_return (weak fairness; sem_timedwait not reporting ENOSYS to that waiter), sem_poller_eventually_returns (a thread inside the ENOSYS fallback returns: weak fairness + virtual time diverges), signal_waiter_eventually_returns, signal_every_waiter_eventually_returns and "
                 "monitor_set_eventually_releases_a_waiter (weak fairness + starvation-free mutex [+ clients release the monitor]); "
                 "whatif_signal_consumed_by_timed_out_waiter_loses_a_wakeup, monitor_two_sets_may_release_only_one_waiter (reachable counter-example states).  "
+                "VARIANTS THE CONTRACT LEAVES OPEN are parameters of the transition systems (constant state fields; Reach quantifies over them; every theorem holds for all values; the driver takes the values of the current source from Generated/SyncMonitorOrder + SyncShape): the order of unlock and signal in Monitor::set; Signal::set skipping store + broadcast when the flag is already set (signal_set_may_skip_the_broadcast_when_already_set: nobody is blocked then); Signal::wait(timeout) reading the clock only after its lock; Semaphore::wait(timeout) beginning with a sem_trywait fast path.  "
                 "TRANSLATED FROM THE CURRENT SOURCES ON EVERY RUN (a source the translators do not recognise is a broken tie): "
                 "(a) tools/areas/_sync_cfg.py parses 20 member functions — all of Mutex, Signal, Monitor, Semaphore::signal/wait/tryWait, Thread::start (both overloads; start(proc,param) inlined into the member overload), join, ~Thread (join inlined) — (POSIX branch; small C++ subset) and executes them symbolically into canonical POSIX-level control-flow tables (Generated/SyncCfg.lean: pending call; per call result x flag value [Thread: handle set?] the flag store, whether the functor is stored, and the next call / returned value; equivalent control flow gives the same table); "
                 "mutex/signal/monitor/thread_step_is_translated_code, sem_simple_step_is_translated_code and signal/monitor_reachable_steps_follow_translated_code prove that EVERY step of Mutex.step / Signal.step / Monitor.step / Thr.step (and the three simple Sem program points) that completes a POSIX call or begins an API call does exactly what the table prescribes (Thread: on an attached object start returns false without storing the functor - fixes/sync/0002), translated_tables_have_no_other_program_points that the tables have no further program points; "
@@ -1635,8 +1636,8 @@ def check(ctx):
         ex.run(corpus)
         # 2. exhaustive schedules of the first `depth` scheduling points
         depth = 8 if quick else 12
-        cap = 1200 if quick else 30000
-        nscen = 24 if quick else 54
+        cap = 1200 if quick else 22000
+        nscen = 24 if quick else 48
         scens = [Scen.parse(l) for l in FIXED_SCENARIOS] + [gen_scen(ctx.rng) for _ in range(nscen)]
         if not proof_ok:
             ctx.log("proof stage broken: searching harder for a failing input")
@@ -1653,7 +1654,7 @@ def check(ctx):
         ctx.log(f"<= {ndev} deviations at any depth: {sum(dtotal.values())} runs ({ndcomplete} scenarios enumerated completely), "
                 f"{len(ex.diffs)} disagreement(s)")
         # 3. random schedules over more scenarios
-        rscens = scens + [gen_scen(ctx.rng) for _ in range(70 if quick else 400)]
+        rscens = scens + [gen_scen(ctx.rng) for _ in range(70 if quick else 340)]
         before = ex.runs
         ex.random(rscens, 80 if quick else 300)
         ctx.log(f"random schedules: {ex.runs - before} runs over {len(rscens)} scenarios, {len(ex.diffs)} disagreement(s) in total")
